@@ -801,6 +801,9 @@ def r6_c_null(L):
         if not bufdecl:
             raise AnalysisError("%s: receive buffer `buf` vanished" % fname)
         ext = array_extent(bufdecl[0].get("type", {}).get("qualType"))
+        if ext is None:
+            raise AnalysisError("%s: receive buffer `buf` is not a local array any more (%s): its extent cannot be compared with the read size" % (
+                fname, bufdecl[0].get("type", {}).get("qualType")))
         reads = calls_to(f, "read")
         L.floor("C14.R8", "read() calls in %s" % fname, len(reads), 1)
         for r in reads:
@@ -862,6 +865,20 @@ def r10_list_head(L):
                 L.ob("C14.R10", F, fname, "first entry of `%s` is taken only when the list is not empty" % h,
                      "dominated by `!%s`" % want, sorted(("" if pl else "!") + t for t, pl in lits)[:6], ok, tu.line(n))
     L.floor("C14.R10", "first-entry accesses to list heads in trx_if.c", n_sites, 3)
+
+
+def r11_clock_path(L, repo):
+    """R11 (no datagram can crash the tools - clock thread): what the clock thread executes for queued bursts
+    (Application.clck_handler -> Transceiver.clck_tick -> forward_msg -> handle_data_msg -> send_msg) raises nothing that
+    leaves the thread: explicit raises and operations that are partial whatever the data (a %-format whose conversions
+    do not match the values supplied) are sites; value-dependent operations on queued fields are R4's."""
+    ci = repo.need_class("fake_trx", "Application")
+    es = Escape(repo, sources=("recvfrom",))
+    es.run(ci, "clck_handler")
+    for f in sorted(es.visited_funcs):
+        L.functions.add(f)
+    n = report_sites(L, "C14.R11", es, repo, "clock thread")
+    L.floor("C14.R11", "functions reached from the clock handler", len(es.visited_funcs), 5)
 
 
 def _none_crash_use(n):
@@ -1011,4 +1028,5 @@ def run(L, tier):
     L.stage(r5_capture, L, repo)
     L.stage(r6_c_null, L)
     L.stage(r10_list_head, L)
+    L.stage(r11_clock_path, L, repo)
     L.stage(r9_desc_total, L, repo)
